@@ -1,7 +1,7 @@
 (** The EKF formulas REGENERATED from python.py and the C++ templates (gen/EkfA.v) equal the textbook
     specification of Theory/Psd.v; consequences for every dimension. *)
 From mathcomp Require Import all_ssreflect all_algebra.
-From FV Require Import Theory.Psd gen.EkfA.
+From FV Require Import Theory.Psd Theory.Perturb gen.EkfA.
 Set Implicit Arguments. Unset Strict Implicit. Unset Printing Implicit Defensive.
 Import Order.Theory GRing.Theory Num.Theory.
 Local Open Scope ring_scope.
@@ -128,6 +128,49 @@ Proof.
 elim: ops P0 => [|o ops IH] P0 vP //= [ho hr].
 by apply: IH => //; exact: step_valid.
 Qed.
+
+(** the same history through the regenerated C++ templates gives the same covariances *)
+Definition cpp_step (P : 'M[F]_n) (o : op) : 'M[F]_n :=
+  match o with
+  | Predict _ G V M => cpp_process_model_cov G V P M
+  | Update _ rm x z hx H Q => (cpp_sensor_model rm x P z hx H Q).1.2
+  end.
+
+Lemma cpp_step_eq_py P o : cpp_step P o = step P o.
+Proof.
+case: o => [c G V M|m rm x z hx H Q] /=; first exact: cpp_predict_eq_py.
+by rewrite cpp_update_spec py_update_spec; case: (rm _ _).
+Qed.
+
+Theorem cpp_history_eq_py (ops : seq op) (P0 : 'M[F]_n) : foldl cpp_step P0 ops = foldl step P0 ops.
+Proof. by elim: ops P0 => [|o ops IH] P0 //=; rewrite cpp_step_eq_py IH. Qed.
+
+Theorem cpp_history_valid (ops : seq op) (P0 : 'M[F]_n) :
+  valid P0 -> all_ok ops -> valid (foldl cpp_step P0 ops).
+Proof. by move=> vP ok; rewrite cpp_history_eq_py; exact: history_valid. Qed.
+
+(** how a defect D of the covariance (rounding made earlier) travels through one accepted step: by congruence
+    with the step's transition matrix (exact; for the update the left factor uses the gain at the perturbed
+    covariance).  The C09 history harness carries the bound E' = F E F^T + (new rounding) built on this. *)
+Theorem predict_step_perturbation c (G : 'M[F]_n) (V : 'M[F]_(n, c)) (M : 'M[F]_c) (P D : 'M[F]_n) :
+  step (P + D) (Predict G V M) - step P (Predict G V M) = G *m D *m G^T.
+Proof. by rewrite /= !py_predict_spec predict_perturbation addrC addKr. Qed.
+
+Theorem update_step_perturbation m (x : 'cV[F]_n) (z hx : 'cV[F]_m) (H : 'M[F]_(m, n)) (Q : 'M[F]_m) (P D : 'M[F]_n) :
+  sym P -> sym Q -> innov_cov P H Q \in unitmx -> innov_cov (P + D) H Q \in unitmx ->
+  step (P + D) (Update (fun _ _ => false) x z hx H Q) - step P (Update (fun _ _ => false) x z hx H Q) =
+  (1%:M - kalman_gain (P + D) H Q *m H) *m D *m (1%:M - kalman_gain P H Q *m H)^T.
+Proof.
+move=> sP sQ u1 u2; rewrite /step !py_update_spec /=.
+by rewrite (update_perturbation sP sQ u1 u2) [P + D - P]addrC addKr.
+Qed.
+
+(** the numerically preferable Joseph form is the same matrix as the form the filter computes *)
+Theorem update_is_joseph m (x : 'cV[F]_n) (z hx : 'cV[F]_m) (H : 'M[F]_(m, n)) (Q : 'M[F]_m) (P : 'M[F]_n) :
+  sym P -> sym Q -> innov_cov P H Q \in unitmx ->
+  step P (Update (fun _ _ => false) x z hx H Q) =
+  (1%:M - kalman_gain P H Q *m H) *m P *m (1%:M - kalman_gain P H Q *m H)^T + kalman_gain P H Q *m Q *m (kalman_gain P H Q)^T.
+Proof. by move=> sP sQ u; rewrite /step py_update_spec /= (joseph_form sP sQ u). Qed.
 
 (** the validity gate never refuses a positive semi-definite covariance: every real eigenvalue of a
     PSD matrix is >= 0 >= negative_tol * scale whenever negative_tol <= 0 <= scale *)
